@@ -1,6 +1,9 @@
 import GrpcModel.Driver.Loop
 import GrpcModel.Model.ServerAdmission
-/-! component `binhdr` (C12, T1): `bin <hex>` → decodeBinHeader accepts; `ct <hex>` → ContentSubtype's boolean -/
+/-! component `binhdr` (C12, T1): the pure helpers the admission model ports.
+`bin <hex>` → decodeBinHeader accepts; `ct <hex>` → ContentSubtype's boolean;
+`to <hex>` → decodeTimeout accepts (the monitor holds the answer against the wire grammar
+`1*8DIGIT unit`: a malformed grpc-timeout that decodes is a request the server would hand on) -/
 namespace GrpcModel.Driver.Binhdr
 open GrpcModel.Driver GrpcModel.ServerAdmission
 
@@ -12,8 +15,22 @@ def model (fs : List String) : String :=
   | ["ct", h] => match unhex h with
     | some bs => if validContentType bs then "ok" else "err"
     | none => "bad-op"
+  | ["to", h] => match unhex h with
+    | some bs => if (GrpcModel.Timeout.decodeBytes bs).isSome then "ok" else "err"
+    | none => "bad-op"
   | _ => "bad-op"
 
-def run : IO Unit := Driver.run () (pureStep model)
+def monitor (fs : List String) (impl : String) : String :=
+  match fs with
+  | ["to", h] => match unhex h with
+    | some bs =>
+      if impl == "ok" && !GrpcModel.Timeout.wellFormed bs then
+        "VIOL decodeTimeout accepts a grpc-timeout outside 1*8DIGIT unit: a request carrying it is not rejected as malformed"
+      else if impl == "err" && GrpcModel.Timeout.wellFormed bs then "VIOL decodeTimeout rejects a well-formed grpc-timeout"
+      else "ok"
+    | none => "-"
+  | _ => "-"
+
+def run : IO Unit := Driver.run () (pureStepMon model monitor)
 
 end GrpcModel.Driver.Binhdr
